@@ -3,7 +3,7 @@
 import sys, os
 sys.path.insert(0, os.path.dirname(os.path.dirname(os.path.abspath(__file__))))
 from vlib import build as B
-variants = ["asan", "plain", "sm2amd64", "smallfp", "sm4aesni", "sm4avx2", "fuzz", "msan"]
+variants = ["asan", "plain", "sm2amd64", "smallfp", "sm4aesni", "sm4avx2", "fuzz", "msan", "tsan"]
 o, dt = B.ensure(variants)
 from vlib import ffi
 ffi.helper()
